@@ -348,6 +348,92 @@ theorem removeByIdx_index_error (l : List α) (tab : List Int) (hn : tab.Nodup)
         · have := (List.pairwise_cons.mp hrev).1 m h; omega
       simp only [delLoop, (pyDel_none_iff l y).mpr (Or.inl hy)]
 
+/-! ### `removeObsList` with ANY list of integers: the deletions done before the `IndexError` stay done -/
+
+/-- the deletions `del L[i]` for the indices of `is` in this order, all of them succeeding -/
+def delAll : List Int → List α → Option (List α)
+  | [], l => some l
+  | i :: rest, l => (pyDel l i).bind (delAll rest)
+
+theorem pyDel_some (l l' : List α) (i : Int) (h : pyDel l i = some l') :
+    l'.Sublist l ∧ l'.length + 1 = l.length := by
+  unfold pyDel at h
+  split at h
+  · split at h
+    · cases h
+      exact ⟨List.eraseIdx_sublist _ _, by rw [List.length_eraseIdx, if_pos (by assumption)]; omega⟩
+    · cases h
+  · split at h
+    · cases h
+      exact ⟨List.eraseIdx_sublist _ _, by rw [List.length_eraseIdx, if_pos (by omega)]; omega⟩
+    · cases h
+
+/-- the loop of `__removeObsListById` on ANY list of integers `is` (in the order of the loop), negative and
+out-of-range ones included: there is a number `k` of deletions done, the first `k` indices of `is` were all deleted
+(`del L[i]` on the list as it is at that moment, a negative `i` counting from the CURRENT end), each removing exactly
+one observation; the list left is that one (a sub-sequence of the source with `k` observations fewer) — ALSO when the
+`IndexError` is raised; the call returns (the counter advanced by `k = len(is)`) exactly when all the indices were
+deleted, and otherwise raises at `is[k]`, which is out of range for the list left -/
+theorem delLoop_partial (is : List Int) (l : List α) (c : Nat) :
+    ∃ (k : Nat) (l' : List α), k ≤ is.length ∧ delAll (is.take k) l = some l' ∧
+      l'.Sublist l ∧ l'.length + k = l.length ∧ (delLoop is l c).1 = l' ∧
+      ((delLoop is l c).2 = none ↔ k < is.length) ∧
+      (k = is.length → (delLoop is l c).2 = some (c + k)) ∧
+      (∀ h : k < is.length, pyDel l' is[k] = none) := by
+  induction is generalizing l c with
+  | nil => exact ⟨0, l, by simp, by simp [delAll], List.Sublist.refl l, by simp, by simp [delLoop], by simp [delLoop],
+      by simp [delLoop], by simp⟩
+  | cons i rest ih =>
+    cases hd : pyDel l i with
+    | none =>
+      refine ⟨0, l, by simp, by simp [delAll], List.Sublist.refl l, by simp, by simp [delLoop, hd],
+        by simp [delLoop, hd], by simp, ?_⟩
+      intro _; simpa using hd
+    | some l1 =>
+      obtain ⟨hs1, hl1⟩ := pyDel_some l l1 i hd
+      obtain ⟨k, l', hk, hall, hsub, hlen, h1, h2, h3, h4⟩ := ih l1 (c + (l.length - l1.length))
+      refine ⟨k + 1, l', by simp; omega, by simp [delAll, hd, hall], hsub.trans hs1, by omega,
+        by simp only [delLoop, hd]; exact h1, ?_, ?_, ?_⟩
+      · simp only [delLoop, hd, List.length_cons]; rw [h2]; omega
+      · intro hk'
+        simp only [delLoop, hd]
+        rw [h3 (by simpa using hk')]
+        congr 1; omega
+      · intro hk'
+        have hk'' : k < rest.length := by simpa using hk'
+        simpa using h4 hk''
+
+/-- `removeObsList(tab)`, ANY list of integers (negative, repeated, out of range): either nothing is removed and 0
+returned (empty list, or a repeated index), or the loop runs over the indices sorted in DECREASING order `d` and
+`delLoop_partial` says what is left: the first `k` of them deleted one observation each, and the call returns `k =
+len(tab)` or raises `IndexError` at `d[k]` with these `k` deletions done -/
+theorem removeByIdx_partial (l : List α) (tab : List Int) :
+    removeByIdx l tab = (l, some 0) ∨
+    ∃ (d : List Int) (k : Nat) (l' : List α), d.Perm tab ∧ d.Pairwise (· ≥ ·) ∧ k ≤ d.length ∧
+      delAll (d.take k) l = some l' ∧ l'.Sublist l ∧ l'.length + k = l.length ∧
+      (removeByIdx l tab).1 = l' ∧
+      ((removeByIdx l tab).2 = none ↔ k < d.length) ∧
+      (k = d.length → (removeByIdx l tab).2 = some k) ∧
+      (∀ h : k < d.length, pyDel l' d[k] = none) := by
+  unfold removeByIdx
+  by_cases he : tab.isEmpty = true
+  · left; simp [he]
+  · by_cases hdup : hasAdjDup (tab.mergeSort (fun a b => decide (a ≤ b))) = true
+    · left; simp [he, hdup]
+    · right
+      simp only [he, hdup, Bool.false_eq_true, if_false]
+      have hperm := List.mergeSort_perm tab (fun a b => decide (a ≤ b))
+      have hsorted : (tab.mergeSort (fun a b => decide (a ≤ b))).Pairwise (· ≤ ·) := by
+        have := List.pairwise_mergeSort (le := fun (a b : Int) => decide (a ≤ b))
+          (by intro a b c; simp only [decide_eq_true_eq]; omega)
+          (by intro a b; simp only [Bool.or_eq_true, decide_eq_true_eq]; omega) tab
+        exact this.imp (by intro a b h; simpa using h)
+      obtain ⟨k, l', hk, hall, hsub, hlen, h1, h2, h3, h4⟩ :=
+        delLoop_partial (tab.mergeSort (fun a b => decide (a ≤ b))).reverse l 0
+      refine ⟨_, k, l', (List.reverse_perm _).trans hperm, ?_, hk, hall, hsub, hlen, h1, h2, ?_, h4⟩
+      · rw [List.pairwise_reverse]; exact hsorted.imp (by intro a b h; exact h)
+      · intro hk'; simpa using h3 hk'
+
 /-- `extractSpanTime(track)` with an EMPTY other track raises `IndexError` (`track[0]`) -/
 theorem extractSpanTrack_empty (tr other : Track) (h : other.pts = []) : extractSpanTrack tr other = none := by
   simp [extractSpanTrack, h, pyGet]
@@ -370,5 +456,12 @@ example : ([3, 0] : List Int).Nodup ∧ ∃ m ∈ ([3, 0] : List Int), (([10, 11
 /-- a valid largest index followed by an invalid negative one (the loop of `removeObsList([2, -4])`, largest index
 first): the deletion of 2 is done before `-4` raises (what the code does; outside the theorems above) -/
 example : delLoop [2, -4] [10, 11, 12] 0 = ([10, 11], none) := by decide +kernel
+
+/-- the loop of `removeObsList([2, -4])` on three observations (`d = [2, -4]`, `k = 1`): one deletion done, then `IndexError` at `-4` -/
+example : delLoop [2, -4] [10, 11, 12] 0 = ([10, 11], none) ∧ delAll [2] [10, 11, 12] = some [10, 11] ∧
+    pyDel [10, 11] (-4) = none := by decide +kernel
+/-- negative indices count from the CURRENT end: the loop of `removeObsList([-1, -2])` (`d = [-1, -2]`) removes the last and then the one before the
+NEW last but one, i.e. positions 3 and 1 of four (not 3 and 2) -/
+example : delLoop [-1, -2] [10, 11, 12, 13] 0 = ([10, 12], some 2) := by decide +kernel
 
 end TV.C04
